@@ -5,6 +5,7 @@ package c06
 import (
 	"errors"
 	"fmt"
+	"io/fs"
 	"runtime/debug"
 	"strings"
 	"time"
@@ -31,6 +32,11 @@ func init() {
 		MarkCases: true,
 	})
 }
+
+// badErr is a host error type that embeds ObjectImpl without overriding String (which panics by design).
+type badErr struct{ ugo.ObjectImpl }
+
+func (*badErr) Error() string { panic("badErr.Error") }
 
 // bad is an object whose methods panic.
 type bad struct{ ugo.ObjectImpl }
@@ -72,6 +78,11 @@ var kinds = []kind{
 	{"cb-panic-string", `PANIC("s")`, false, true, false},
 	{"cb-panic-error", `PANIC("e")`, false, true, false},
 	{"cb-panic-runtime", `PANIC("r")`, false, true, false},
+	// panic values that are errors whose own methods panic: whatever turns the recovered value into a script error
+	// must not call them unprotected inside the recover handler
+	{"cb-panic-nil-patherror", `PANIC("n")`, false, true, false},
+	{"cb-panic-nil-runtimeerror", `PANIC("q")`, false, true, false},
+	{"cb-panic-error-object", `PANIC("o")`, false, true, false},
 	{"cb-panic-after-invoke", `PANICAFTER(func() { return 1 })`, false, true, false},
 	{"obj-indexget", "BAD.x", false, true, false},
 	{"obj-iterate", "iterBad()", false, true, false},
@@ -110,6 +121,14 @@ func globals() ugo.Map {
 			case "r":
 				var a []int
 				_ = a[3]
+			case "n":
+				var pe *fs.PathError
+				panic(error(pe)) // Error() dereferences nil
+			case "q":
+				var re *ugo.RuntimeError
+				panic(error(re))
+			case "o":
+				panic(error(&badErr{}))
 			}
 			panic("panic with a string")
 		}},
@@ -197,6 +216,9 @@ var probes = []struct {
 	{"param a; x := a * 2; f := func(y) { return y + x }; return f(1)", []ugo.Object{ugo.Int(20)}, "41"},
 	{"r := []; try { r = append(r, 1); throw \"e\" } catch { r = append(r, 2) } finally { r = append(r, 3) }; return r", nil, "[1, 2, 3]"},
 	{"var s; s = func(n) { if n == 0 { return 0 }; return n + s(n-1) }; a := [1, 2, 3]; for i, v in a { a[i] = v * 2 }; return [s(300), a]", nil, "[45150, [2, 4, 6]]"},
+	{"param a; f1 := func() { return 1 / a }; return f1()", []ugo.Object{ugo.Int(0)}, "ERR ZeroDivisionError"},
+	{"param a; f1 := func() { return 1 / a }; f2 := func() { return [f1()] }; return f2()", []ugo.Object{ugo.Int(0)}, "ERR ZeroDivisionError"},
+	{"param a; f1 := func() { return 1 / a }; f2 := func() { return [f1()] }; f3 := func() { return [f2()] }; try { f3() } catch e { return \"main caught\" }; return 0", []ugo.Object{ugo.Int(0)}, "\"main caught\""},
 	{"global SM; SM.w = 5; SM.w2 = SM.w + SM.k; delete(SM, \"w\"); return [SM.w2, len(SM)]", nil, "[6, 2]"},
 }
 
